@@ -8,47 +8,133 @@ import Keto.Generated.Facts
 namespace Keto.FactsTie
 open Keto.Facts
 
-/-- The depth guards the engine model (`Keto.build`) and the expand model encode:
-    `<= 0` in `checkIsAllowed`, `checkDirect`, `checkExpandSubject`,
-    `checkSubjectSetRewrite` and the request clamp; `< 0` in `checkInverted`,
-    `checkComputedSubjectSet`, `checkTupleToSubjectSet`; `<= 0` / `<= 1` in expand. -/
-def expectedDepthGuards : List (String × String × String) := [
-  ("internal/check/engine.go", "Engine.CheckRelationTuple", "restDepth <= 0"),
-  ("internal/check/engine.go", "Engine.checkExpandSubject", "restDepth <= 0"),
-  ("internal/check/engine.go", "Engine.checkDirect", "restDepth <= 0"),
-  ("internal/check/engine.go", "Engine.checkIsAllowed", "restDepth <= 0"),
-  ("internal/check/rewrites.go", "Engine.checkSubjectSetRewrite", "restDepth <= 0"),
-  ("internal/check/rewrites.go", "Engine.checkInverted", "restDepth < 0"),
-  ("internal/check/rewrites.go", "Engine.checkComputedSubjectSet", "restDepth < 0"),
-  ("internal/check/rewrites.go", "Engine.checkTupleToSubjectSet", "restDepth < 0"),
-  ("internal/expand/engine.go", "Engine.buildTreeRecursive", "restDepth <= 0"),
-  ("internal/expand/engine.go", "Engine.buildTreeRecursive", "restDepth <= 1")
+/-! ### Depth tests and depth arguments: a semantic tie
+
+The fact translator turns the condition of every `if` that tests the depth, and every depth
+argument of a recursive call, of engine.go / rewrites.go / expand/engine.go into a Lean
+definition (`Facts.cond<i>`, `Facts.arg<i>`, free variables in alphabetical order). What is
+compared with the model is their MEANING (as functions on `Int`), not their spelling:
+`restDepth < 1` for `restDepth <= 0` keeps the tie, `restDepth < 0` breaks it. The sites
+(file, function, callee) are compared as a table. -/
+
+/-- Where the depth is tested: `<= 0` in `checkIsAllowed`, `checkDirect`, `checkExpandSubject`,
+    `checkSubjectSetRewrite`; `< 0` in `checkInverted`, `checkComputedSubjectSet`,
+    `checkTupleToSubjectSet`; the request clamp in `CheckRelationTuple` and in expand;
+    `<= 1` in expand. -/
+def expectedCondSites : List (String × String × String) := [
+  ("internal/check/engine.go", "Engine.CheckRelationTuple", "cond0"),
+  ("internal/check/engine.go", "Engine.checkExpandSubject", "cond1"),
+  ("internal/check/engine.go", "Engine.checkDirect", "cond2"),
+  ("internal/check/engine.go", "Engine.checkIsAllowed", "cond3"),
+  ("internal/check/rewrites.go", "Engine.checkSubjectSetRewrite", "cond4"),
+  ("internal/check/rewrites.go", "Engine.checkInverted", "cond5"),
+  ("internal/check/rewrites.go", "Engine.checkComputedSubjectSet", "cond6"),
+  ("internal/check/rewrites.go", "Engine.checkTupleToSubjectSet", "cond7"),
+  ("internal/expand/engine.go", "Engine.buildTreeRecursive", "cond8"),
+  ("internal/expand/engine.go", "Engine.buildTreeRecursive", "cond9")
 ]
 
-theorem depthGuards_tie : depthGuards = expectedDepthGuards := by decide
+theorem condSites_tie : depthConds.map (fun r => (r.1, r.2.1, r.2.2.2)) = expectedCondSites := by decide
 
-/-- Depth argument (and `skipDirect` literal) of every recursive call of the engine,
-    as encoded in `Keto.build`. -/
-def expectedDepthCalls : List (String × String × String × String) := [
-  ("internal/check/engine.go", "Engine.CheckRelationTuple", "checkIsAllowed", "restDepth,false"),
-  ("internal/check/engine.go", "Engine.checkExpandSubject", "checkIsAllowed", "restDepth,true"),
-  ("internal/check/engine.go", "Engine.checkIsAllowed", "checkSubjectSetRewrite", "restDepth"),
-  ("internal/check/engine.go", "Engine.checkIsAllowed", "checkDirect", "restDepth - 1"),
-  ("internal/check/engine.go", "Engine.checkIsAllowed", "checkExpandSubject", "restDepth - 1"),
-  ("internal/check/rewrites.go", "Engine.checkSubjectSetRewrite", "checkIsAllowed", "restDepth - 1,true"),
-  ("internal/check/rewrites.go", "Engine.checkSubjectSetRewrite", "checkTupleToSubjectSet", "restDepth"),
-  ("internal/check/rewrites.go", "Engine.checkSubjectSetRewrite", "checkComputedSubjectSet", "restDepth"),
-  ("internal/check/rewrites.go", "Engine.checkSubjectSetRewrite", "checkSubjectSetRewrite", "restDepth - 1"),
-  ("internal/check/rewrites.go", "Engine.checkSubjectSetRewrite", "checkInverted", "restDepth"),
-  ("internal/check/rewrites.go", "Engine.checkInverted", "checkTupleToSubjectSet", "restDepth"),
-  ("internal/check/rewrites.go", "Engine.checkInverted", "checkComputedSubjectSet", "restDepth"),
-  ("internal/check/rewrites.go", "Engine.checkInverted", "checkSubjectSetRewrite", "restDepth"),
-  ("internal/check/rewrites.go", "Engine.checkInverted", "checkInverted", "restDepth"),
-  ("internal/check/rewrites.go", "Engine.checkComputedSubjectSet", "checkIsAllowed", "restDepth - 1,false"),
-  ("internal/check/rewrites.go", "Engine.checkTupleToSubjectSet", "checkIsAllowed", "restDepth - 1,false")
+/-- The request clamp is `effDepth` (both engines): the global limit when the request depth is
+    `≤ 0` or above it. -/
+theorem clamp_sem (g r : Int) :
+    cond0 g r = decide (r ≤ 0 ∨ g < r) ∧ cond8 g r = decide (r ≤ 0 ∨ g < r) := by
+  constructor <;>
+    (apply Bool.eq_iff_iff.mpr; simp only [cond0, cond8, Bool.or_eq_true, decide_eq_true_eq] <;> omega)
+
+/-- `restDepth <= 0` guards (what `Keto.build` encodes as `d ≤ 0`). -/
+theorem guards_le0_sem (d : Int) :
+    cond1 d = decide (d ≤ 0) ∧ cond2 d = decide (d ≤ 0) ∧ cond3 d = decide (d ≤ 0) ∧ cond4 d = decide (d ≤ 0) := by
+  refine ⟨?_, ?_, ?_, ?_⟩ <;>
+    (apply Bool.eq_iff_iff.mpr; simp only [cond1, cond2, cond3, cond4, decide_eq_true_eq] <;> omega)
+
+/-- `restDepth < 0` guards (what `Keto.build` encodes as `d < 0`). -/
+theorem guards_lt0_sem (d : Int) :
+    cond5 d = decide (d < 0) ∧ cond6 d = decide (d < 0) ∧ cond7 d = decide (d < 0) := by
+  refine ⟨?_, ?_, ?_⟩ <;>
+    (apply Bool.eq_iff_iff.mpr; simp only [cond5, cond6, cond7, decide_eq_true_eq] <;> omega)
+
+/-- Expand: a subject set becomes a leaf when `restDepth <= 1`. -/
+theorem guard_le1_sem (d : Int) : cond9 d = decide (d ≤ 1) := by
+  apply Bool.eq_iff_iff.mpr; simp only [cond9, decide_eq_true_eq] <;> omega
+
+/-- Which recursive call passes which depth argument. -/
+def expectedArgSites : List (String × String × String × String) := [
+  ("internal/check/engine.go", "Engine.CheckRelationTuple", "checkIsAllowed", "arg0"),
+  ("internal/check/engine.go", "Engine.checkExpandSubject", "checkIsAllowed", "arg1"),
+  ("internal/check/engine.go", "Engine.checkIsAllowed", "checkSubjectSetRewrite", "arg2"),
+  ("internal/check/engine.go", "Engine.checkIsAllowed", "checkDirect", "arg3"),
+  ("internal/check/engine.go", "Engine.checkIsAllowed", "checkExpandSubject", "arg4"),
+  ("internal/check/rewrites.go", "Engine.checkSubjectSetRewrite", "checkIsAllowed", "arg5"),
+  ("internal/check/rewrites.go", "Engine.checkSubjectSetRewrite", "checkTupleToSubjectSet", "arg6"),
+  ("internal/check/rewrites.go", "Engine.checkSubjectSetRewrite", "checkComputedSubjectSet", "arg7"),
+  ("internal/check/rewrites.go", "Engine.checkSubjectSetRewrite", "checkSubjectSetRewrite", "arg8"),
+  ("internal/check/rewrites.go", "Engine.checkSubjectSetRewrite", "checkInverted", "arg9"),
+  ("internal/check/rewrites.go", "Engine.checkInverted", "checkTupleToSubjectSet", "arg10"),
+  ("internal/check/rewrites.go", "Engine.checkInverted", "checkComputedSubjectSet", "arg11"),
+  ("internal/check/rewrites.go", "Engine.checkInverted", "checkSubjectSetRewrite", "arg12"),
+  ("internal/check/rewrites.go", "Engine.checkInverted", "checkInverted", "arg13"),
+  ("internal/check/rewrites.go", "Engine.checkComputedSubjectSet", "checkIsAllowed", "arg14"),
+  ("internal/check/rewrites.go", "Engine.checkTupleToSubjectSet", "checkIsAllowed", "arg15")
 ]
 
-theorem depthCalls_tie : depthCalls = expectedDepthCalls := by decide
+theorem argSites_tie : (depthArgs == expectedArgSites) = true := by decide +kernel
+
+/-- Calls that keep the depth (`restDepth`). -/
+theorem args_same_sem (d : Int) :
+    arg0 d = d ∧ arg1 d = d ∧ arg2 d = d ∧ arg6 d = d ∧ arg7 d = d ∧ arg9 d = d ∧
+    arg10 d = d ∧ arg11 d = d ∧ arg12 d = d ∧ arg13 d = d := by
+  refine ⟨?_, ?_, ?_, ?_, ?_, ?_, ?_, ?_, ?_, ?_⟩ <;>
+    (simp only [arg0, arg1, arg2, arg6, arg7, arg9, arg10, arg11, arg12, arg13] <;> omega)
+
+/-- Calls that consume one level (`restDepth - 1`). -/
+theorem args_minus1_sem (d : Int) :
+    arg3 d = d - 1 ∧ arg4 d = d - 1 ∧ arg5 d = d - 1 ∧ arg8 d = d - 1 ∧ arg14 d = d - 1 ∧ arg15 d = d - 1 := by
+  refine ⟨?_, ?_, ?_, ?_, ?_, ?_⟩ <;> (simp only [arg3, arg4, arg5, arg8, arg14, arg15] <;> omega)
+
+/-- The `skipDirect` literal of every recursive call of `checkIsAllowed`, and the call structure
+    (who calls whom): the fourth component of `depthCalls` with the depth expression removed. -/
+def callLits : List (String × String × String × String) :=
+  depthCalls.map fun r => (r.1, r.2.1, r.2.2.1, if r.2.2.2.endsWith ",true" then "true" else if r.2.2.2.endsWith ",false" then "false" else "")
+
+def expectedCallLits : List (String × String × String × String) := [
+  ("internal/check/engine.go", "Engine.CheckRelationTuple", "checkIsAllowed", "false"),
+  ("internal/check/engine.go", "Engine.checkExpandSubject", "checkIsAllowed", "true"),
+  ("internal/check/engine.go", "Engine.checkIsAllowed", "checkSubjectSetRewrite", ""),
+  ("internal/check/engine.go", "Engine.checkIsAllowed", "checkDirect", ""),
+  ("internal/check/engine.go", "Engine.checkIsAllowed", "checkExpandSubject", ""),
+  ("internal/check/rewrites.go", "Engine.checkSubjectSetRewrite", "checkIsAllowed", "true"),
+  ("internal/check/rewrites.go", "Engine.checkSubjectSetRewrite", "checkTupleToSubjectSet", ""),
+  ("internal/check/rewrites.go", "Engine.checkSubjectSetRewrite", "checkComputedSubjectSet", ""),
+  ("internal/check/rewrites.go", "Engine.checkSubjectSetRewrite", "checkSubjectSetRewrite", ""),
+  ("internal/check/rewrites.go", "Engine.checkSubjectSetRewrite", "checkInverted", ""),
+  ("internal/check/rewrites.go", "Engine.checkInverted", "checkTupleToSubjectSet", ""),
+  ("internal/check/rewrites.go", "Engine.checkInverted", "checkComputedSubjectSet", ""),
+  ("internal/check/rewrites.go", "Engine.checkInverted", "checkSubjectSetRewrite", ""),
+  ("internal/check/rewrites.go", "Engine.checkInverted", "checkInverted", ""),
+  ("internal/check/rewrites.go", "Engine.checkComputedSubjectSet", "checkIsAllowed", "false"),
+  ("internal/check/rewrites.go", "Engine.checkTupleToSubjectSet", "checkIsAllowed", "false")
+]
+
+theorem callLits_tie : (callLits == expectedCallLits) = true := by decide +kernel
+
+/-- All depth sites of the check engine and of expand, as one statement (what `Keto.build`,
+    `Keto.effDepth` and the expand model encode). -/
+theorem depthGuards_tie :
+    depthConds.map (fun r => (r.1, r.2.1, r.2.2.2)) = expectedCondSites ∧
+    (∀ g r : Int, cond0 g r = decide (r ≤ 0 ∨ g < r) ∧ cond8 g r = decide (r ≤ 0 ∨ g < r)) ∧
+    (∀ d : Int, cond1 d = decide (d ≤ 0) ∧ cond2 d = decide (d ≤ 0) ∧ cond3 d = decide (d ≤ 0) ∧ cond4 d = decide (d ≤ 0)) ∧
+    (∀ d : Int, cond5 d = decide (d < 0) ∧ cond6 d = decide (d < 0) ∧ cond7 d = decide (d < 0)) ∧
+    (∀ d : Int, cond9 d = decide (d ≤ 1)) :=
+  ⟨condSites_tie, clamp_sem, guards_le0_sem, guards_lt0_sem, guard_le1_sem⟩
+
+theorem depthCalls_tie :
+    (depthArgs == expectedArgSites) = true ∧ (callLits == expectedCallLits) = true ∧
+    (∀ d : Int, arg0 d = d ∧ arg1 d = d ∧ arg2 d = d ∧ arg6 d = d ∧ arg7 d = d ∧ arg9 d = d ∧
+      arg10 d = d ∧ arg11 d = d ∧ arg12 d = d ∧ arg13 d = d) ∧
+    (∀ d : Int, arg3 d = d - 1 ∧ arg4 d = d - 1 ∧ arg5 d = d - 1 ∧ arg8 d = d - 1 ∧ arg14 d = d - 1 ∧ arg15 d = d - 1) :=
+  ⟨argSites_tie, callLits_tie, args_same_sem, args_minus1_sem⟩
 
 /-- Every result channel of package `check` that a goroutine sends on after its
     receiver may have stopped listening has capacity 1 (C15). -/
